@@ -14,6 +14,10 @@ def expr_text(e, name: str = "t") -> str:
         return name
     if e[0] == "c":
         return str(e[1])
+    if e[0] == "abs":
+        return f"abs({expr_text(e[1], name)})"
+    if e[0] == "neg":
+        return f"(-{expr_text(e[1], name)})"
     return f"({expr_text(e[1], name)} {e[0]} {expr_text(e[2], name)})"
 
 
@@ -45,6 +49,10 @@ def meaning_node(n) -> Dict[str, Any]:
             params[en["k"]] = f"k{int(en['v'])}" if en.get("str") else float(en["v"])
     if params:
         out["parameters"] = params
+    elif n.get("pempty") == 1:
+        out["parameters"] = None
+    elif n.get("pempty") == 2:
+        out["parameters"] = {}
     sw = n["sweep"]
     if sw["on"]:
         variables = {vname(sw): {"values": [int(x) if sw.get("ints") else float(x) for x in sw["vals"]]}}
@@ -91,6 +99,8 @@ def render(cfg: List[Dict[str, Any]]) -> str:
                             body.append(f"          {s['k']}: {scalar(s['v'], s['sp'])}")
                     else:
                         body.append(f"        {en['k']}: {scalar(en['v'], en['sp'], en.get('str'))}")
+        if not n["ps"] and n.get("pempty"):
+            body.append("      parameters:" if n["pempty"] == 1 else "      parameters: {}")
         sw = n["sweep"]
         if sw["on"]:
             vals = ", ".join((str(int(x)) if sw.get("ints") else f"{float(x):.1f}") for x in sw["vals"])
@@ -114,7 +124,8 @@ def render(cfg: List[Dict[str, Any]]) -> str:
             lines[node_start] = f"    - &n{idx}\n      " + lines[node_start][6:]
     text = "\n".join(lines) + "\n"
     loaded = yaml.safe_load(text)
-    want = [meaning_node(n) for n in cfg]
+    # an aliased node IS its anchor (it takes over the anchor's way of writing things, e.g. of an empty block)
+    want = [meaning_node(cfg[int(n["alias"]) - 1]) if n.get("alias") else meaning_node(n) for n in cfg]
     if loaded["pipeline"]["nodes"] != want:
         raise RuntimeError(f"render guard: text does not load back to its meaning\n{text}\n{loaded['pipeline']['nodes']}\n{want}")
     return text
